@@ -214,7 +214,7 @@ def obligations(tier, seed):
                                   timeout=600, group='ranking and order independence',
                                   bounds='3 rules; truth vector and all three priorities symbolic'))
     for n, cats, subs in ([(2, [True, True], [True, False])] if tier == 'quick' else [(2, [True, True], [True, False]), (2, [True, True], [True, True]), (3, [True, True, True], [True, False, True]), (3, [True, False, True], [False, True, True])]):
-        obs.append(Obligation(id=f'symspec-n{n}-{"".join(str(int(c)) for c in cats)}', factory='ms_rank_symspec',
+        obs.append(Obligation(id=f'symspec-n{n}-{"".join(str(int(c)) for c in cats)}-{"".join(str(int(c)) for c in subs)}', factory='ms_rank_symspec',
                               params={'n': n, 'cats': cats, 'subs': subs}, timeout=200 if tier == 'quick' else 1200,
                               group='ranking, symbolic specificity',
                               bounds=f'{n} rules; truth vector, priorities and all three specificity components symbolic (ints >= 0, unbounded)'))
